@@ -193,7 +193,7 @@ func initSeeds() {
 
 var alphabet = []byte(" \t\r\n:;,=\"\\%&?#/-+.0123456789abcdefxyzABCXYZ\x00\x01\x7f\x80\xff")
 var tokens = []string{"\r\n", "\r\n\r\n", "\n", "\n\n", " ", "\t", "Content-Length: ", "Transfer-Encoding: chunked\r\n", "0\r\n\r\n", "Host: h\r\n",
-	"Trailer: ", "Connection: close\r\n", "Expect: 100-continue\r\n", "ffffffffffffffff", "7fffffffffffffff\r\n", "-1", "99999999999999999999",
+	"Trailer: ", "Connection: close\r\n", "Expect: 100-continue\r\n", "ffffffffffffffff", "7fffffffffffffff\r\n", "ffffffffffffffff\r\n", "8000000000000000\r\n", "fffffffffffffff\r\n", "-1", "99999999999999999999", "9223372036854775807", "9223372036854775808", "18446744073709551616",
 	"%", "%2", "%zz", "[", "]", "@", "--XX", "--XX--", "boundary=", "; ", "=\"", "\\\"", "bytes=", "HTTP/1.1", "HTTP/1.0"}
 
 func mutate(r *rand.Rand, b []byte) []byte {
@@ -239,6 +239,50 @@ func mutate(r *rand.Rand, b []byte) []byte {
 	return out
 }
 
+// ---------- boundary dictionary: chunk sizes and Content-Length values around the int limits ----------
+
+func hexBoundary() []string {
+	var out []string
+	for _, n := range []int{14, 15, 16, 17} {
+		for _, lead := range []string{"0", "1", "7", "8", "f"} {
+			out = append(out, lead+strings.Repeat("f", n-1), lead+strings.Repeat("0", n-1))
+		}
+	}
+	return append(out, "7fffffffffffffff", "8000000000000000", "ffffffffffffffff", "fffffffffffffffe", "FFFFFFFFFFFFFFFF",
+		"fffffffffffffff", "7ffffffffffffff", "0000000000000005", "00000000000000005", "1", "a")
+}
+
+var decBoundary = []string{
+	"999999999999999999", "1000000000000000000", "4611686018427387904", "9223372036854775806", "9223372036854775807",
+	"9223372036854775808", "9223372036854775809", "9999999999999999999", "18446744073709551614", "18446744073709551615",
+	"18446744073709551616", "18446744073709551617", "27670116110564327424", "99999999999999999999", "2147483647", "2147483648", "4294967296",
+}
+
+// boundaryMsgs builds requests and responses whose chunk size (first or later chunk, with or without extension) or
+// Content-Length is a boundary value.
+func boundaryMsgs(resp bool) [][]byte {
+	head := "POST /a HTTP/1.1\r\nHost: h\r\n"
+	if resp {
+		head = "HTTP/1.1 200 OK\r\n"
+	}
+	var out [][]byte
+	for _, hx := range hexBoundary() {
+		for _, ext := range []string{"", ";x=1", " ", "\t;e"} {
+			out = append(out, []byte(head+"Transfer-Encoding: chunked\r\n\r\n"+hx+ext+"\r\nab\r\n0\r\n\r\nTAIL"))
+			out = append(out, []byte(head+"Transfer-Encoding: chunked\r\n\r\n2\r\nab\r\n"+hx+ext+"\r\ncd\r\n0\r\n\r\nTAIL"))
+		}
+		out = append(out, []byte(head+"Transfer-Encoding: chunked\r\n\r\n"+hx))
+		out = append(out, []byte(head+"Transfer-Encoding: chunked\r\n\r\n"+hx+"\r\n"))
+	}
+	for _, d := range decBoundary {
+		out = append(out, []byte(head+"Content-Length: "+d+"\r\n\r\nabcdef"))
+		out = append(out, []byte(head+"Content-Type: multipart/form-data; boundary=XX\r\nContent-Length: "+d+"\r\n\r\n--XX--\r\n"))
+	}
+	return out
+}
+
+var boundaryLimits = []int{1, 64, 4096}
+
 var valOps = []string{"cookie", "uri", "args", "range", "params", "multipart"}
 
 func gen(r *rand.Rand, i int) desc {
@@ -263,13 +307,27 @@ func gen(r *rand.Rand, i int) desc {
 		pool = "resp"
 	}
 	d.In = hlib.Pick(r, seedPool[pool])
+	if (pool == "req" || pool == "resp") && r.Intn(5) == 0 {
+		d.In = hlib.Pick(r, boundaryMsgs(pool == "resp"))
+		if r.Intn(2) == 0 {
+			d.In = append([]byte(nil), d.In...)
+			return descFor(r, d, true)
+		}
+	}
 	if r.Intn(8) != 0 {
 		d.In = mutate(r, d.In)
 	}
 	if len(d.In) > 600 {
 		d.In = d.In[:600]
 	}
+	return descFor(r, d, false)
+}
+
+func descFor(r *rand.Rand, d desc, boundary bool) desc {
 	d.Src = "mut"
+	if boundary {
+		d.Src = "boundary"
+	}
 	switch d.Op {
 	case "reqhead", "resphead":
 		d.BSize = 4096
@@ -283,7 +341,7 @@ func gen(r *rand.Rand, i int) desc {
 			d.Cfg = hd.Cfg{DisableNorm: r.Intn(2) == 0, DisableSpecial: d.Op == "reqhead" && r.Intn(3) == 0, Secure: r.Intn(2) == 0}
 		}
 	case "req", "resp":
-		d.Max = hlib.Pick(r, []int{1, 2, 5, 16, 100, 1024, 1 << 20})
+		d.Max = hlib.Pick(r, []int{1, 2, 5, 16, 64, 100, 1024, 4096, 1 << 20})
 	case "range":
 		d.A = hlib.Pick(r, []int{0, 1, 10, 100, 1 << 40})
 	case "uri":
@@ -296,6 +354,17 @@ func gen(r *rand.Rand, i int) desc {
 
 func corpus() []desc {
 	var c []desc
+	for _, resp := range []bool{false, true} {
+		op := "req"
+		if resp {
+			op = "resp"
+		}
+		for _, m := range boundaryMsgs(resp) {
+			for _, lim := range boundaryLimits {
+				c = append(c, desc{Op: op, In: m, Max: lim, Src: "boundary"})
+			}
+		}
+	}
 	for _, op := range []string{"req", "resp", "cookie", "uri", "args", "range", "params", "multipart"} {
 		for _, s := range seedPool[op] {
 			d := desc{Op: op, In: s, Max: 1024, A: 100, Src: "seed"}
